@@ -1,9 +1,182 @@
-(** C17 -- SBML import builds the model the document describes (statements only). *)
-From Coq Require Import String List.
-From SbmlImp Require Import SbmlExpr SbmlImport SbmlRun GenSbmlFacts.
+(** C17 -- SBML import builds the model the document describes.
+
+    ONLY theorem statements (written out in full), each closed by [exact <lemma>] and followed by
+    [Print Assumptions].  All statements are about [gen_facts], the facts REGENERATED from
+    /repo/src/mxlpy/sbml/_import.py, meta/codegen_mxlpy.py and meta/sympy_tools.py on every run;
+    [C17_facts_pinned] breaks when the names under which function bodies are filed, the order of the
+    loops that fill the [functions] dict, the way a body is stored ([_register_fn]: fresh name on a
+    clash -- fix a07e507 -- vs. the snapshot's plain overwrite), the parameters-before-variables dispatch
+    of initial assignments, the module/file name or the shape of any other anchored statement is edited.
+    [run_module F fs file tm] = _codegen + generate_mxlpy_code_from_symbolic_repr + import_from_path +
+    create_model() under the module name [file].
+
+    Pipeline (SbmlImport.v):   tmodel  (what pysbml.load_and_transform_model returned)
+        --[_codegen/_transform_stoichiometry]--> symrepr --[generate_mxlpy_code_from_symbolic_repr]-->
+        gensrc (the written module) --[import_from_path ; create_model()]--> mmodel (the mxlpy Model).
+    Reading of the two ends (SbmlRun.v), for an arbitrary value algebra [A] (binary64 or exact Q) and
+    an arbitrary assignment [env] of values to all names (= "at every state"):
+      [TEqs tm env]   every rule / kinetic law of the transformed document holds in env,
+      [TInit tm env]  every initial assignment of the document holds in env,
+      [trhs env x ..] sum over the reactions of coefficient-expression * rate for species x;
+      [MEqs m env], [MInit m env], [mrhs env x ..]  the same for the built Model, whose components are
+      Python functions called positionally with the values of their argument lists.
+
+    The property is PARTIAL by design: pysbml's transformer (function definitions inlined,
+    compartment sizes applied, ids renamed) is external -- its output is the input here, and
+    [C17_import_correct_doc_partial] takes its meaning-preservation as an explicit hypothesis. *)
+From Coq Require Import String List QArith.
+From SbmlImp Require Import SbmlExpr SbmlImport SbmlRun SbmlSpec SbmlProofs SbmlWitness SbmlRefute SbmlRunProofs GenSbmlFacts.
 Import ListNotations.
 Open Scope string_scope.
 
 Theorem C17_facts_pinned : gen_facts = expected_facts.
 Proof. vm_compute. reflexivity. Qed.
 Print Assumptions C17_facts_pinned.
+
+(** FULL STATEMENT: the same without the hypotheses [NoReserved tm] (false of the code: recorded finding
+    C17-reserved-name-capture) and [NoKeyCollision gen_facts fs tm].  Since fix a07e507 the code no longer
+    violates the statement when keys clash (a different function gets a fresh name: see
+    C17_key_collision_repaired for the former witness, and C17_key_collision_old_code_refuted for the
+    snapshot's behaviour); the GENERAL proof for clashing keys (every reference resolves to a def that is
+    positionally interchangeable with the component's own) is NOT done here -- it is proved for the
+    same generator in coq/mxlgen (C11) and validated here by correspondence + oracle on deliberately
+    colliding documents.  What is proved: when no two requested keys clash the repaired generator
+    writes the very module the snapshot's generator wrote (SbmlProofs.generate_nodup), and then:
+
+    Proved: for every transformed document whose dictionaries are well formed, that uses none of the
+    names the generated module needs itself, and for which the generator files every function body
+    under its own name -- for EVERY enumeration order [fs] of sympy's free_symbols sets and EVERY
+    module name -- create_model() succeeds and returns a Model with the document's ids, whose plain
+    values are the document's numbers, whose initial assignments override exactly the values the
+    document assigns (parameters and variables alike), whose rules and kinetic laws hold in exactly
+    the environments in which the document's do, and whose species derivatives (constant Float,
+    named-quantity and computed coefficients) are the document's: stoichiometry x kinetic laws. *)
+Theorem C17_import_correct_partial :
+  forall (V : Type) (A : alg V) (fs : expr -> list string) (file : string) (tm : tmodel),
+    FsOk fs -> WellFormed tm -> NoReserved tm -> NoKeyCollision gen_facts fs tm ->
+    exists m, run_module gen_facts fs file tm = Some m
+      /\ model_ids m = tm_ids tm
+      /\ map fst (m_vars m) = map fst (t_vars tm)
+      /\ (forall k q, In (k, MNum q) (m_vars m ++ m_pars m) -> In (k, q) (t_vars tm ++ t_pars tm))
+      /\ (forall k q, In (k, q) (t_vars tm ++ t_pars tm) -> ~ In k (map fst (t_ia tm)) ->
+            In (k, MNum q) (m_vars m ++ m_pars m))
+      /\ forall env : string -> V,
+           (MEqs A m env <-> TEqs A tm env)
+           /\ (MInit A m env <-> TInit A tm env)
+           /\ (forall x acc, mrhs A env x (m_rxn m) acc = trhs A env x (t_rxn tm) acc).
+Proof. exact (import_correct gen_facts C17_facts_pinned). Qed.
+Print Assumptions C17_import_correct_partial.
+
+(** the same with pysbml explicit: IF load_and_transform_model ([transform]) returns a well-formed
+    model that means what the document means ([DocEqs]/[DocInit]/[docrhs]: function definitions,
+    assignment rules and compartment sizes applied), THEN the Model mxlpy builds means it too *)
+Theorem C17_import_correct_doc_partial :
+  forall (doc : Type) (transform : doc -> tmodel) (V : Type) (A : alg V)
+         (DocEqs DocInit : doc -> (string -> V) -> Prop) (docrhs : doc -> (string -> V) -> string -> option V),
+    (forall d env,
+        WellFormed (transform d)
+        /\ (TEqs A (transform d) env <-> DocEqs d env)
+        /\ (TInit A (transform d) env <-> DocInit d env)
+        /\ (forall x, trhs A env x (t_rxn (transform d)) (a_num A 0) = docrhs d env x)) ->
+    forall (fs : expr -> list string) (file : string) (d : doc),
+      FsOk fs -> NoReserved (transform d) -> NoKeyCollision gen_facts fs (transform d) ->
+      exists m, run_module gen_facts fs file (transform d) = Some m
+        /\ forall env,
+             (MEqs A m env <-> DocEqs d env) /\ (MInit A m env <-> DocInit d env)
+             /\ (forall x, mrhs A env x (m_rxn m) (a_num A 0) = docrhs d env x).
+Proof.
+  exact (fun doc transform V A DocEqs DocInit docrhs H =>
+           import_correct_doc doc transform A DocEqs DocInit docrhs H gen_facts C17_facts_pinned).
+Qed.
+Print Assumptions C17_import_correct_doc_partial.
+
+(** FULL STATEMENT: the same for ids as they stand in the SBML file.  The renaming of ids that are not
+    usable Python names (keywords, leading non-letters) happens inside pysbml and is NOT injective
+    ("if" and "if_" are merged: recorded finding C17-keyword-escape-not-injective); proved here for the
+    ids as pysbml hands them over: they are pairwise different in the built Model and every argument
+    name of every component (initial assignments, rules, kinetic laws, computed coefficients) is an
+    id of the Model or the time symbol *)
+Theorem C17_names_consistent_partial :
+  forall (fs : expr -> list string) (file : string) (tm : tmodel),
+    FsOk fs -> WellFormed tm -> NoReserved tm -> NoKeyCollision gen_facts fs tm -> Closed tm ->
+    exists m, run_module gen_facts fs file tm = Some m
+      /\ model_ids m = tm_ids tm /\ NoDup (model_ids m)
+      /\ forall k c, In (k, c) (comps_all m) -> forall a, In a (snd c) -> In a (model_ids m) \/ a = "time".
+Proof. exact (names_consistent gen_facts C17_facts_pinned). Qed.
+Print Assumptions C17_names_consistent_partial.
+
+(** two documents in one session: after ANY history of further reads whose normalised module names
+    differ from the first one's, inspect.getsource of every generated function of the first model is
+    still that function's own def; and what a read returns does not depend on the session at all *)
+Theorem C17_two_documents :
+  forall (fs : expr -> list string) (s0 : session) (stem1 : string) (tm1 : tmodel) (m1 : mmodel)
+         (l : list (string * tmodel)),
+    snd (read gen_facts fs s0 stem1 tm1) = Some m1 ->
+    Forall (fun d => out_name gen_facts (fst d) <> out_name gen_facts stem1) l ->
+    (forall f, In f (own_fns (out_name gen_facts stem1) m1) ->
+       getsource (read_many gen_facts fs (fst (read gen_facts fs s0 stem1 tm1)) l) f = Some (pf_body f, pf_params f))
+    /\ (forall s stem tm, snd (read gen_facts fs s stem tm) = snd (read gen_facts fs empty_session stem tm)).
+Proof. exact (two_documents_F gen_facts C17_facts_pinned). Qed.
+Print Assumptions C17_two_documents.
+
+(** link to the executable reading of Model.get_right_hand_side that the correspondence check runs
+    against mxlpy ([rhs_of], association-list environment): whenever it returns a number, that number is
+    the sum [mrhs] of the theorems above, in every environment that agrees with the association list *)
+Theorem C17_executable_rhs_is_mrhs :
+  forall (V : Type) (A : alg V) (l : list (string * V)) (envf : string -> V) (x : string)
+         (rxns : list (string * mrxn)) (acc v : V),
+    (forall n w, lookup n l = Some w -> envf n = w) ->
+    rhs_of A l x rxns acc = Some v -> mrhs A envf x rxns acc = Some v.
+Proof. exact (fun V A => rhs_of_mrhs A). Qed.
+Print Assumptions C17_executable_rhs_is_mrhs.
+
+(** REPAIRED defect C17-function-key-collision (fix a07e507), regression witness about the OLD fact value
+    [snapshot_facts] (= expected facts with f_register := RegOverwrite): a well-formed, closed document
+    without reserved names (a rule-defined parameter called v1_stoich_A next to a reaction v1 that consumes
+    A in a compartment of size 2) whose rules hold in an environment in which the built Model's do not *)
+Theorem C17_key_collision_old_code_refuted :
+  exists (tm : tmodel) (file : string) (m : mmodel) (env : string -> Q),
+    WellFormed tm /\ NoReserved tm /\ Closed tm /\ ~ NoKeyCollision snapshot_facts fsyms tm
+    /\ run_module snapshot_facts fsyms file tm = Some m
+    /\ TEqs q_alg tm env /\ ~ MEqs q_alg m env.
+Proof. exact key_collision_old_code_refuted. Qed.
+Print Assumptions C17_key_collision_old_code_refuted.
+
+(** the same document under the CURRENT facts: keys still clash, the second body is stored as
+    v1_stoich_A_1, the built Model's rules and laws hold in that environment and the derivatives of every
+    species are the document's *)
+Theorem C17_key_collision_repaired :
+  ~ NoKeyCollision gen_facts fsyms w_stoich_coll
+  /\ exists m, run_module gen_facts fsyms "mb_w" w_stoich_coll = Some m
+       /\ TEqs q_alg w_stoich_coll w_env /\ MEqs q_alg m w_env
+       /\ (forall x, mrhs q_alg w_env x (m_rxn m) 0 = trhs q_alg w_env x (t_rxn w_stoich_coll) 0).
+Proof. exact (key_collision_repaired gen_facts C17_facts_pinned). Qed.
+Print Assumptions C17_key_collision_repaired.
+
+(** recorded finding C17-same-stem-overwrite: two different file stems with the same normalised module
+    name ("My Model" / "my-model"); right after the first read the source of the first model's
+    function is its own def, after the second read it is not *)
+Theorem C17_same_stem_refuted :
+  exists (stem1 stem2 : string) (tm1 tm2 : tmodel) (m1 : mmodel) (f : pyfn),
+    stem1 <> stem2 /\ out_name gen_facts stem1 = out_name gen_facts stem2
+    /\ WellFormed tm1 /\ WellFormed tm2 /\ NoKeyCollision gen_facts fsyms tm1 /\ NoKeyCollision gen_facts fsyms tm2
+    /\ snd (read gen_facts fsyms empty_session stem1 tm1) = Some m1
+    /\ In f (own_fns (out_name gen_facts stem1) m1)
+    /\ getsource (fst (read gen_facts fsyms empty_session stem1 tm1)) f = Some (pf_body f, pf_params f)
+    /\ getsource (fst (read gen_facts fsyms (fst (read gen_facts fsyms empty_session stem1 tm1)) stem2 tm2)) f
+       <> Some (pf_body f, pf_params f).
+Proof. exact (same_stem_refuted gen_facts C17_facts_pinned). Qed.
+Print Assumptions C17_same_stem_refuted.
+
+(** non-vacuity: a document with a compartment of size 2, a rule, initial assignments on a parameter
+    and on a species, an amount species whose id is a Python keyword (pysbml: lambda -> lambda_) and a
+    fractional coefficient meets every hypothesis of the theorems above; the executable model of
+    Model.get_right_hand_side returns the numbers mxlpy returned for it *)
+Example C17_nonvacuous :
+  FsOk fsyms /\ WellFormed w_nonvac /\ NoReserved w_nonvac /\ Closed w_nonvac /\ NoKeyCollision gen_facts fsyms w_nonvac
+  /\ exists ic args,
+       observe q_alg (run_module gen_facts fsyms "mb_nv" w_nonvac)
+               [[("A", 4#1); ("B", 4#1); ("lambda_", 2#1)]%Q]
+       = Val (ic, [(args, [("A", (-132)#1); ("B", 262#1); ("lambda_", 8#1)]%Q)]).
+Proof. exact (nonvacuous gen_facts C17_facts_pinned). Qed.
+Print Assumptions C17_nonvacuous.
